@@ -70,27 +70,33 @@ def x_ral_attest():
     if not m:
         raise Broken("attestToken: publishWormholeMessage(payer, <target>, nextSendSequence(), nonce, payload, consistencyLevel) not found")
     target = int(m.group(2))
-    # event declaration and emit
+    # event declaration and emit: a node reports the event's fields in the order of the emit's arguments, typed by the
+    # declaration; the position of each publishWormholeMessage parameter in the emit is what the model uses
     ev = re.search(r'event WormholeMessage\(([^)]*)\)', gv)
     if not ev:
         raise Broken("governance.ral: event WormholeMessage not found")
     fields = re.findall(r'(\w+)\s*:\s*(\w+)', ev.group(1))
-    names = [n for n, _ in fields]
     want = ["sender", "targetChainId", "sequence", "nonce", "payload", "consistencyLevel"]
-    if sorted(names) != sorted(want):
-        raise Broken("event WormholeMessage has fields %s" % names)
     for n, t in fields:
         if t not in ("ByteVec", "U256"):
             raise Broken("event WormholeMessage: field %s has type %s" % (n, t))
     pparams, pbody = ral_fn(gv, "publishWormholeMessage", "governance.ral")
+    ppt = dict(re.findall(r'(\w+)\s*:\s*(\w+)', pparams))
+    pnames = [n for n, _ in re.findall(r'(\w+)\s*:\s*(\w+)', pparams)]
+    if pnames != ["payer", "targetChainId", "sequence", "nonce", "payload", "consistencyLevel"]:
+        raise Broken("publishWormholeMessage parameters are %s" % pnames)
     em = re.search(r'emit WormholeMessage\(([^\n]*)\)\s*\n', pbody)
     if not em:
         raise Broken("publishWormholeMessage: emit not found")
     args = [a.strip() for a in em.group(1).split(",")]
-    expect_args = {"sender": "callerContractId!()", "targetChainId": "targetChainId", "sequence": "sequence", "nonce": "nonce",
-                   "payload": "payload", "consistencyLevel": "consistencyLevel"}
-    if len(args) != len(names) or any(expect_args[n] != a for n, a in zip(names, args)):
-        raise Broken("emit WormholeMessage(%s) does not pass the parameters in the declared order %s" % (em.group(1), names))
+    argname = {"callerContractId!()": "sender"}
+    names = [argname.get(a, a) for a in args]
+    if sorted(names) != sorted(want) or len(args) != len(fields):
+        raise Broken("emit WormholeMessage(%s): arguments are not exactly the caller id and the five message parameters" % em.group(1))
+    for (dn, dt), n in zip(fields, names):
+        at = "ByteVec" if n == "sender" else ppt.get(n)
+        if at != dt:
+            raise Broken("emit WormholeMessage: %s (%s) passed for the declared field %s: %s" % (n, at, dn, dt))
     out = ("(* token_bridge.ral attestToken: let payload = %s *)\n"
            "Definition ral_attest_payload (localTokenId : list byte) (localChainId decimals : Z) (symbol name : list byte) : list byte :=\n"
            "  (%s)%%list.\n"
@@ -99,13 +105,14 @@ def x_ral_attest():
            "(* assert!(size!(x) == n, ..) *)\n"
            "Definition ral_attest_size_asserts (localTokenId symbol name nonce : list byte) : list (nat * nat) := [%s].\n"
            "Definition ral_attest_target_chain : Z := %d.\n"
-           "(* governance.ral: event WormholeMessage(%s); true = U256 (reported as a decimal string), false = ByteVec (hex string) *)\n"
+           "(* governance.ral: event WormholeMessage(%s), emitted as (%s); true = U256 (reported as a decimal string), false = ByteVec (hex string) *)\n"
            "Definition ral_event_is_u256 : list bool := [%s].\n"
            % (" ++ ".join(parts), " ++ ".join(g), "; ".join("(%s, %d%%nat)" % r for r in ranges),
               "; ".join("(length %s, %d%%nat)" % (v, szmap[v]) for v in bytevars + ["nonce"]), target,
-              ", ".join("%s: %s" % f for f in fields), "; ".join("true" if t == "U256" else "false" for _, t in fields)))
+              ", ".join("%s: %s" % f for f in fields), ", ".join(args), "; ".join("true" if t == "U256" else "false" for _, t in fields)))
     for n in want:
         out += "Definition ral_ev_idx_%s : nat := %d%%nat.\n" % (n, names.index(n))
-    return out, {"payload": parts, "sizes": szmap, "event": names, "target": target}
+    return out, {"payload": parts, "payload_id": pid["AttestToken"].lower(), "sizes": szmap, "event": names,
+                 "types": [t for _, t in fields], "target": target}
 
 EXTRACTORS = [("ral_attest", x_ral_attest)]
